@@ -84,7 +84,7 @@ type MsgOp struct {
 	Cred    int    `json:"cred"` // 0 given false 1 given true 2 vrf invalid 3 vrf valid
 }
 type Op struct {
-	K       string  `json:"k"` // ctx msg cache srv
+	K       string  `json:"k"` // ctx msg cache srv restart
 	R       uint64  `json:"r,omitempty"`
 	I       uint32  `json:"i,omitempty"`
 	Step    uint32  `json:"step,omitempty"`
@@ -402,6 +402,7 @@ type cur struct {
 
 type impl struct {
 	h      *History
+	mk     func() *ucon.Voter // NewVoter over the case's database (used again by restart ops)
 	v      *ucon.Voter
 	cache  map[int]bool
 	cur    cur
@@ -470,8 +471,13 @@ func newImpl(h *History) *impl {
 		return nil
 	}
 	count := func(round *big.Int, kind params.ValidatorKind, lb params.LookBackType) uint64 { return 0 }
-	im.v = ucon.NewVoter(youdb.NewMemDatabase(), keys[0], nil, mux, verifySort, isValidator, maxPrio, inCache, getStake, count, im.pm)
-	im.v.SetLookBackMgr(im.pm)
+	db := youdb.NewMemDatabase()
+	im.mk = func() *ucon.Voter {
+		v := ucon.NewVoter(db, keys[0], nil, mux, verifySort, isValidator, maxPrio, inCache, getStake, count, im.pm)
+		v.SetLookBackMgr(im.pm)
+		return v
+	}
+	im.v = im.mk()
 	return im
 }
 
@@ -639,6 +645,9 @@ func (im *impl) apply(o *Op) Obs {
 		if im.srv != nil {
 			ucon.VerifC03SetServerContext(im.srv, new(big.Int).SetUint64(o.R), o.I)
 		}
+	case "restart":
+		// the process restarts: a new Voter (NewVoter -> NewVoteDB) over the same database
+		im.v = im.mk()
 	}
 	for _, x := range drain() {
 		ob.Events = append(ob.Events, decodeEvent(x))
@@ -717,6 +726,7 @@ type oracle struct {
 	// what a verifier with the same look-back set accepts as credential: (sender, index, type) -> seats
 	stale bool // some counted vote carried an invalid VRF credential (finding class, real mode)
 	realVerified int
+	sent         map[tkey]int // votes posted per (round, index, kind) over the whole history, restarts included
 }
 
 func newOracle(h *History, im *impl) *oracle {
@@ -783,6 +793,9 @@ func (o *oracle) step(op *Op, ob *Obs) {
 	switch op.K {
 	case "srv":
 		o.srvR, o.srvI = op.R, op.I
+	case "restart":
+		// all volatile state is gone: no kept vote sets, no context
+		o.ring, o.tallies, o.ctxSet = nil, map[tkey]*tally{}, false
 	case "ctx":
 		if !o.ctxSet || o.r != op.R || o.i != op.I {
 			if !o.inRing(op.R, op.I) {
@@ -841,6 +854,23 @@ func (o *oracle) step(op *Op, ob *Obs) {
 			}
 		}
 		trigThr, trigOK = m.Thr, accepted && m.Kind == 0
+	}
+	// an honest validator never signs two conflicting votes, even across restarts
+	for _, e := range ob.Events {
+		if e.K == "send" {
+			if o.sent == nil {
+				o.sent = map[tkey]int{}
+			}
+			k := tkey{e.R, e.I, e.T}
+			o.sent[k]++
+			lim := 1
+			if e.T == 2 {
+				lim = 2
+			}
+			if o.sent[k] > lim {
+				o.hit(fmt.Sprintf("conflicting_vote_emitted: %d %s votes posted for (%d,%d)", o.sent[k], vtName[e.T], e.R, e.I))
+			}
+		}
 	}
 	// own votes seen in this op are counted too (newVote without addrVoteInfo)
 	for _, e := range ob.Events {
@@ -1089,6 +1119,8 @@ func opCoq(o *Op) string {
 			vf.Bool(m.Sig == 0), m.Votes, vf.Bool(m.NoVote), stake, cred)
 	case "cache":
 		return fmt.Sprintf("Cache %d %s", o.H, vf.Bool(o.Present))
+	case "restart":
+		return "Restart"
 	default:
 		return fmt.Sprintf("Srv %d %d", o.R, o.I)
 	}
@@ -1242,6 +1274,8 @@ func normalize(h *History) {
 			if o.H < 1 || o.H > nBlocks {
 				continue
 			}
+		case "restart":
+			seenCtx = false // the new Voter has no round yet
 		}
 		out = append(out, o)
 	}
@@ -1335,6 +1369,17 @@ func (g *genState) ctx(step uint32) {
 	}
 	g.step = step
 	g.h.Ops = append(g.h.Ops, o)
+}
+
+// restart: the process comes back and re-enters the round, usually at index 1
+// (clearData(true)), sometimes at the index it was in
+func (g *genState) restart() {
+	g.h.Ops = append(g.h.Ops, Op{K: "restart"})
+	if g.r.Chance(60) {
+		g.prev = append(g.prev, [2]uint64{g.round, uint64(g.idx)})
+		g.idx = 1
+	}
+	g.ctx([]uint32{0, 2, 2, 4}[g.r.Intn(4)])
 }
 
 func (g *genState) msg(status, t int, r uint64, i uint32, sender, h int) {
@@ -1572,6 +1617,9 @@ func genHistory(r *vf.Rng) History {
 				if r.Chance(3) {
 					g.ctx(g.step) // the same context delivered again
 				}
+				if r.Chance(2) {
+					g.restart()
+				}
 			}
 		}
 		g.advance()
@@ -1659,7 +1707,23 @@ func genFlow(r *vf.Rng) History {
 	if r.Chance(25) {
 		switchAt = 1 + r.Intn(len(phases)-1)
 	}
+	restartAt := -1
+	if r.Chance(25) {
+		restartAt = r.Intn(len(phases))
+	}
 	for pi, t := range phases {
+		if pi == restartAt {
+			// restart in the middle of the round index and re-enter it: every vote
+			// already signed must be refused, the quorums must be counted again
+			h.Ops = append(h.Ops, Op{K: "restart"})
+			g.ctx(2)
+			h.Ops[len(h.Ops)-1].MaxP = &[2]int{1, 1 + r.Intn(nBlocks)}
+			if pi > 0 {
+				for _, s := range order() {
+					plain(phases[pi-1], s, g.lead) // the earlier phase is delivered again
+				}
+			}
+		}
 		if pi == switchAt {
 			// the round index moves on between two phases: quorums reached in the
 			// old index must not count in the new one
